@@ -152,3 +152,17 @@ Definition inner_n_okb (ops : list operand) (o : outcome (list value)) : bool :=
                         end)
   | IndexErr => false
   end.
+
+(* ---- lists and tuples are both containers: the elements at depth n of a value that may hold tuples *)
+Fixpoint telements (n : nat) (v : tvalue) : list tvalue :=
+  match n with
+  | 0 => [v]
+  | S n' => match v with
+            | TLeaf _ => [v]
+            | TList l => flat_map (telements n') l
+            | TTup l => flat_map (telements n') l
+            end
+  end.
+
+Definition tsingle_okb (n : nat) (v : tvalue) (o : outcome tvalue) : bool :=
+  outcome_eqb tvalue_eqb o (Jobs (telements n v)).
